@@ -19,7 +19,7 @@ import (
 )
 
 func init() {
-	register(&Prop{ID: "C04", Module: "V.C04.Check", Gen: c04Gen, Quick: 2200, Thorough: 40000, Shard: 160})
+	register(&Prop{ID: "C04", Module: "V.C04.Check", Gen: c04Gen, Quick: 2000, Thorough: 40000, Shard: 150})
 }
 
 var c04FS = fstest.MapFS{
@@ -387,11 +387,18 @@ func c04Gen(r *Rng, tier string, n int) []Case {
 	for _, t := range c03FragCorpus {
 		add(t, "corpus")
 	}
+	var small []string
 	for _, t := range c03Corpus() {
-		if tier != "thorough" && len(t) > 1500 {
-			continue
+		if tier == "thorough" || len(t) <= 1200 {
+			small = append(small, t)
 		}
-		add(t, "repo")
+	}
+	stride := 1
+	if tier != "thorough" && len(small) > 700 {
+		stride = (len(small) + 699) / 700
+	}
+	for i := r.Intn(stride); i < len(small); i += stride {
+		add(small[i], "repo")
 	}
 	budget := n - len(out)
 	if budget < 500 {
